@@ -765,3 +765,35 @@ def per_kind_fanout(ctx):
             k = kind_of_operand(a, agg_field_op(st, "kind"))
             ctx.check("msg" in k and not (k & {"Build", "Service"}), f"{r.actor_label(a)}/ok-kind@{bb}", [site(a, bb)], f"the aggregate's Ok carries kind {sorted(k)} instead of the incoming kind")
     ctx.need(n >= 1, "aggregate actor")
+
+
+@rule("C10.RELAY-OWNS-RECEIVER", ["C10", "C04"], """the receiving end of the bounded actor-output channel has a single owner that is moved into the engine: when the relay returns the channel closes, so actors
+      blocked in a send wake up and can observe termination (a second, undrained receiver handle would keep them blocked for ever)""", "K4", floor=1)
+def relay_owns_receiver(ctx):
+    f = ctx.f
+    r = ctx.r
+    clones = []
+    for b in f.user_bodies():
+        for bb, t in b.calls():
+            if re.search(r"<async_std::channel::Receiver<[\w:]*TargetActorOutputMessage> as std::clone::Clone>::clone$", callee_decl(t)):
+                clones.append((b, bb))
+    for (b, bb) in clones:
+        ctx.bad(f"{short(b.name)}/clone", [site(b, bb)], "the receiver of the bounded actor-output channel is cloned: a handle that outlives the relay keeps the channel open, actors blocked in `send` never wake, and shutdown hangs")
+    # the receiver created next to TargetActors is moved into the engine entry
+    ma = r.main_async()
+    created = [(bb, t) for bb, t in ma.calls() if t["callee"]["base"].endswith("channel::bounded") and t["callee"]["gargs"] and tyname(t["callee"]["gargs"][0]) == "TargetActorOutputMessage"]
+    if not created:
+        created = [(bb, t) for bb, t in ma.calls() if t["callee"]["base"].endswith("channel::unbounded") and t["callee"]["gargs"] and tyname(t["callee"]["gargs"][0]) == "TargetActorOutputMessage"]
+    ctx.need(created, "creation of the actor-output channel in main")
+    relays = {r.fn_of(x).name for x in r.relays()}
+    for bb, t in created:
+        fl = ma.prov.flows_forward(t["dest"]["local"])
+        recv_locals = {l for l in fl if re.match(r"async_std::channel::Receiver<[\w:]*TargetActorOutputMessage>$", ma.locals[l]["ty"])}
+        moved = False
+        for cb, ct in ma.calls():
+            cn = callee_base(ct)
+            if cn in f.bodies and relays & f.cg.reach([cn], cross_spawn=False):
+                for a in ct["args"]:
+                    if a["k"] == "move" and a["place"]["local"] in fl and "Receiver" in ma.locals[a["place"]["local"]]["ty"]:
+                        moved = True
+        ctx.check(moved and not clones, "main/receiver-moved-into-engine", [site(ma, bb)], "the receiver of the actor-output channel is not handed over (moved) to the engine")
